@@ -40,7 +40,7 @@ MANIFEST = dict(
          'renaming, canonicalisation of replies, the owner-tracking stand-ins for Server.mutex and the two tables); '
          'harness/mgr_conc_driver.py and the monitors in props/c20conc.py (concurrent scenarios: tested, not proved); '
          'CPython list/dict semantics as written in Manager.apply_local '
-         '(checked against real objects only through the correspondence). All theorems Closed under the global context.',
+         '(checked against real objects only through the correspondence). All theorems Closed under the global context. Thread-affine referents (RLock, Condition) across the release of other proxies, and an undecodable request following a fallback call on one connection, are validated on a real SyncManager against local twins (harness/mgr_affine_driver.py), not modelled.',
     technique='Coq proof over translator-regenerated kernels and control skeletons + differential correspondence',
     ref='5.20',
 )
